@@ -90,6 +90,7 @@ class KaniHarness:
     covers: str = ""          # which function / contract it checks
     contract: bool = False    # proof_for_contract harness
     tier: str = "quick"       # "quick": run in both tiers; "thorough": only in the thorough tier
+    ignore: list = field(default_factory=list)   # [(regex on "desc @ fn", justification)]: failed checks that are known tool artefacts
 
 
 @dataclass
